@@ -3,9 +3,8 @@ CONSTANTS
   GatherMaxN = 4
   Shapes = {"gather"}
   MaxFaults = 2
-  Batches = 2
+  Batches = 1
   Mutants = {"none"}
-  Dev = 0
 INIT Init
 NEXT Next
 INVARIANT TypeOK
